@@ -168,7 +168,7 @@ def run_threshold(case):
             b, be, lz = mis.history_of(ev.probe.state)
             trail.append(mis.ess_float(mis.logw_float(b, be, lz, 1.0)[0]))
 
-    scout = Probe(dict(cfg, n_total=case["scout_total"]), base=case["base"], monitors=[mon], max_iters=400)
+    scout = Probe(dict(cfg, n_total=case["scout_total"]), base=case["base"], monitors=[mon], max_iters=case.get("max_iters", 400))
     scout.run()
     res.evals += 1
     res.traces += 1
@@ -180,10 +180,11 @@ def run_threshold(case):
         nt = int(math.floor(e)) + 1
         if nt not in targets_ and nt > cfg["n_particles"]:
             targets_.append(nt)
-    for nt in targets_[: case["max_targets"]]:
+    chosen = targets_[-case["max_targets"]:] if case.get("from_end") else targets_[: case["max_targets"]]
+    for nt in chosen:
         if case.get("only_nt") and case["only_nt"] != nt:
             continue
-        p = Probe(dict(cfg, n_total=nt), base=case["base"], max_iters=400)
+        p = Probe(dict(cfg, n_total=nt), base=case["base"], max_iters=case.get("max_iters", 400))
         p.run()
         res.evals += 1
         res.states += 1
@@ -195,7 +196,7 @@ def run_threshold(case):
         for key, msg in terminal_errors(p):
             res.violate("threshold:" + key, msg + f" [n_total={nt} chosen just above a posterior ESS the run passes through; cfg={cfg}]", cc)
         res.outcome(("threshold", tuple(sorted((k, repr(v)) for k, v in cfg.items())), nt), nontrivial=True)
-    res.sample({"cfg": cfg, "ess_trail": [round(e, 3) for e in trail[:6]], "n_total_values": targets_[: case["max_targets"]]}, cap=1)
+    res.sample({"cfg": cfg, "ess_trail": [round(e, 3) for e in trail[:6]], "n_total_values": chosen}, cap=1)
     return res
 
 
@@ -295,6 +296,10 @@ def plan(ctx):
                        "posterior_flag_combinations": 16, "trim_params": TRIMS, "resample_offsets": offs})
     thr = [{"kind": "threshold", "cfg": dict(sample=k, resample=r, clustering=cl, n_particles=npart, eval="scalar"), "base": ctx.seed, "scout_total": 12 * npart, "max_targets": 12 if th else 6}
            for k in ("tpcn", "rwm") for r in ("mult", "syst") for cl in (False, True) for npart in ((16, 32) if th else (16,))]
+    # scale: the termination test at the END of long runs (the samples-by-iterations table reaches 3e5 entries in quick, 2.3e6 in thorough)
+    thr += [{"kind": "threshold", "cfg": dict(sample="tpcn", resample="mult", clustering=False, n_particles=32, eval="vec", d=2, ess_ratio=2.0), "base": ctx.seed, "scout_total": 32 * 100, "max_targets": 2, "from_end": True, "max_iters": 2000}]
+    if th:
+        thr += [{"kind": "threshold", "cfg": dict(sample="tpcn", resample="mult", clustering=False, n_particles=64, eval="vec", d=2, ess_ratio=er), "base": ctx.seed, "scout_total": 64 * 190, "max_targets": 3, "from_end": True, "max_iters": 2000} for er in (2.0, 8.0)]
     ctx.explore("termination-threshold", thr)
     scfg = dict(n_particles=8, d=1, ess_ratio=1.0, n_total=10 ** 6, eval="blobs", clustering=False)
     ses = [{"kind": "session", "cfg": dict(scfg, resample=rs), "base": ctx.seed, "depth": 9, "patterns": [sh, 4]} for rs in ("mult", "syst") for sh in range(4)]
